@@ -33,6 +33,7 @@ type FuncSpec struct {
 	Ensures    []*Clause
 	Modifies   []Expr
 	ModSrc     []string
+	ModCond    []Expr // per modifies entry: optional entry-state condition (nil: unconditional)
 	HasMod     bool
 	FrameProps []string // properties the frame (modifies) obligations are claimed for
 	Loops      map[int]*LoopSpec
@@ -48,6 +49,7 @@ type FuncSpec struct {
 	Results    []string       // for fnspec / explicit result naming
 	IsFnSpec   bool
 	Slots      bool
+	AllocBound *Clause
 	MayPanic   bool
 	AllocFresh bool // results are freshly allocated
 	Splits     []*Split
@@ -233,6 +235,16 @@ func ParseFile(path, defaultPkg string) (*File, error) {
 					cur.FrameProps = props
 				}
 				if rest != "nothing" && rest != "" {
+					// modifies loc, loc [when cond]: the locations may change only if cond holds at entry
+					var cond Expr
+					if i := strings.Index(rest, " when "); i >= 0 {
+						ce, err := ParseExpr(strings.TrimSpace(rest[i+6:]))
+						if err != nil {
+							return nil, fail("%v", err)
+						}
+						cond = ce
+						rest = strings.TrimSpace(rest[:i])
+					}
 					for _, m := range splitTop(rest) {
 						e, err := ParseExpr(m)
 						if err != nil {
@@ -240,6 +252,7 @@ func ParseFile(path, defaultPkg string) (*File, error) {
 						}
 						cur.Modifies = append(cur.Modifies, e)
 						cur.ModSrc = append(cur.ModSrc, m)
+						cur.ModCond = append(cur.ModCond, cond)
 					}
 				}
 			case "loop":
@@ -270,6 +283,13 @@ func ParseFile(path, defaultPkg string) (*File, error) {
 					return nil, err
 				}
 				curLoop.Decreases = c
+			case "allocbound":
+				// every data-dependent make() in the body allocates at most this many cells
+				c, err := mkClause()
+				if err != nil {
+					return nil, err
+				}
+				cur.AllocBound = c
 			case "slots":
 				cur.Slots = true // fnspec: every function stored by the package init with this signature must refine it
 			case "assumed", "trusted", "external":
